@@ -235,6 +235,7 @@ def run(repo, rep, tier):
         detail=str(ups))
     versions_total(repo, rep)
     _objects_by_name(repo, rep)
+    _wrong_variable(repo, rep)
     # what a debug template stores under the key differs from what a plain
     # one stores only by a comment: the file name in it is a literal (%r), so
     # no name -- a line break in it -- can turn the comment into code that
@@ -256,6 +257,63 @@ def run(repo, rep, tier):
               "literal", construct="debug-comment-literal",
               where=L.where(ck), detail="; ".join(t_[:40] for t_, a_ in heads))
     L.state_rule(repo, rep)
+
+
+def _wrong_variable(repo, rep, rule="R15.1"):
+    """value-level facts of the key and store functions that a 'wrong
+    variable' slip breaks while every line still runs"""
+    bd = repo.func("chameleon.template.BaseTemplate.digest")
+    rets = [r_ for r_ in ast.walk(bd.node) if isinstance(r_, ast.Return)]
+    hexes = {src(a.targets[0]) for a in ast.walk(bd.node)
+             if isinstance(a, ast.Assign) and "hexdigest()" in src(a.value)}
+    rep.check(bool(rets) and bool(hexes) and all(
+        isinstance(r_.value, ast.Name) and r_.value.id in hexes
+        for r_ in rets), rule, bd.qualname, "the base key that is returned "
+        "is the digest (with or without the path prefix), never one of its "
+        "inputs", construct="base:returns-digest", where=L.where(bd))
+    sn = repo.func("chameleon.zpt.template._stable_name")
+    prm = sn.node.args.args[0].arg
+    fb = [r_ for r_ in ast.walk(sn.node) if isinstance(r_, ast.Return)
+          and r_.value is not None and "id(" in src(r_.value)]
+    rep.check(bool(fb) and all(
+        "repr(%s)" % prm in src(r_.value) and "id(%s)" % prm in src(r_.value)
+        for r_ in fb), rule, sn.qualname, "the fallback name is made of the "
+        "value's own representation and identity",
+        construct="stable-name-fallback-of-value", where=L.where(sn))
+    pd = repo.func("chameleon.zpt.template.PageTemplate.digest")
+    okn = True
+    nloops = 0
+    for lp in ast.walk(pd.node):
+        if isinstance(lp, ast.For) and isinstance(lp.iter, (ast.Tuple,
+                                                            ast.List)):
+            var = src(lp.target)
+            for t_, args_, n_ in L.fmt_sites(lp):
+                if t_.startswith(";%s="):
+                    nloops += 1
+                    if not args_ or src(args_[0]) != var:
+                        okn = False
+    rep.check(okn and nloops >= 3, rule, pd.qualname, "every option value "
+              "enters the key under its own name (';<name>=<value>')",
+              construct="option-named-in-key", where=L.where(pd))
+    ml = repo.func("chameleon.template._make_module_loader")
+    calls_ = [c for c in ast.walk(ml.node) if isinstance(c, ast.Call)
+              and src(c.func) == "ModuleLoader"]
+    rep.check(bool(calls_) and all(
+        len(c.args) == 2 and src(c.args[0]) == "path" and
+        src(c.args[1]) == "remove" for c in calls_), "R15.3", ml.qualname,
+        "the loader is told the directory and whether the directory is its "
+        "own to remove (a configured cache directory never is)",
+        construct="loader-remove-flag-passed", where=L.where(ml))
+    ck = repo.func("chameleon.template.BaseTemplate._cook")
+    gets = [c for c in ast.walk(ck.node) if isinstance(c, ast.Call)
+            and isinstance(c.func, ast.Attribute) and c.func.attr == "get"
+            and c.args and isinstance(c.args[0], ast.Constant)
+            and c.args[0].value == "__name__"]
+    rep.check(bool(gets) and all(src(c.func.value) == "cooked"
+                                 for c in gets), "R15.2", ck.qualname,
+              "the name of a stored module is read from the module's own "
+              "dictionary", construct="cooked-name-from-cooked",
+              where=L.where(ck))
 
 
 def _objects_by_name(repo, rep, rule="R15.1"):
